@@ -131,7 +131,7 @@ func rulesRCFlow(c *Ctx, r *Report, cb *ssa.Function, tab *ssa.Global) {
 			r.check(rsOK, "FLOW-RC", where, "result is the bytes written", c.pos(f.Pos()), "every return hands back exactly the complemented bytes: the builder's string, a slice appended to from empty, or ReverseComplement onto an empty destination", rsWhy)
 		}
 		// loop shape: the sequence of source indices over the iterations
-		law, why := indexLawOf(s, f, idx.Val)
+		law, why := indexLawOf(s, f, idx)
 		if law == nil {
 			r.undecided("SIB4", where, "loop", c.pos(f.Pos()), "source index is not an affine function of a counted loop variable: "+why)
 			continue
@@ -202,7 +202,8 @@ type indexLaw struct {
 }
 
 // indexLawOf: idx must be an affine function of one loop-header phi with a constant step.
-func indexLawOf(s *symb, f *ssa.Function, idx ssa.Value) (*indexLaw, string) {
+func indexLawOf(s *symb, f *ssa.Function, idxS *Sym) (*indexLaw, string) {
+	idx := idxS.Val
 	// the phi: search idx's operands
 	var phi *ssa.Phi
 	seen := map[ssa.Value]bool{}
@@ -213,7 +214,7 @@ func indexLawOf(s *symb, f *ssa.Function, idx ssa.Value) (*indexLaw, string) {
 		}
 		seen[v] = true
 		if p, ok := v.(*ssa.Phi); ok {
-			if len(naturalLoop(p.Block())) > 1 {
+			if isLoopHeader(p.Block()) {
 				phi = p
 				return
 			}
@@ -227,11 +228,23 @@ func indexLawOf(s *symb, f *ssa.Function, idx ssa.Value) (*indexLaw, string) {
 		}
 	}
 	find(idx)
+	// the index as an expression tree (its root may be a normalised node without an SSA value of its own)
+	var walkSym func(e *Sym)
+	walkSym = func(e *Sym) {
+		if e == nil || phi != nil {
+			return
+		}
+		find(e.Val)
+		for _, a := range e.Args {
+			walkSym(a)
+		}
+	}
+	walkSym(idxS)
 	if phi == nil {
 		return nil, "no loop variable in the index"
 	}
 	pname := s.expr(phi).String()
-	lidx := linOf(s.expr(idx))
+	lidx := linOf(idxS)
 	alpha := lidx.coef[pname]
 	if alpha == 0 {
 		return nil, "index does not depend linearly on the loop variable"
@@ -295,6 +308,46 @@ func indexLawOf(s *symb, f *ssa.Function, idx ssa.Value) (*indexLaw, string) {
 			// continue on the true edge into the loop
 			if okOp && nl[phi.Block().Succs[0]] && !nl[phi.Block().Succs[1]] {
 				law.condIsIdxNonNeg = linSub(g, lidx).String() == "0"
+				if !law.condIsIdxNonNeg {
+					// a rotated loop (`for i := range n`): the test at the end of the body is about the next iteration's
+					// index, and the guard in front of the loop about the first one
+					next := linForm{coef: map[string]int64{}, k: lidx.k + alpha*step}
+					for x, cf := range lidx.coef {
+						next.coef[x] += cf
+					}
+					okEntry := false
+					for i, pr := range phi.Block().Preds {
+						if nl[pr] {
+							continue
+						}
+						_ = i
+						if eif, ok := lastInstr(pr).(*ssa.If); ok && pr.Succs[0] == phi.Block() {
+							if ebo, ok := eif.Cond.(*ssa.BinOp); ok {
+								ex, ey := linOf(s.expr(ebo.X)), linOf(s.expr(ebo.Y))
+								var eg linForm
+								okE := true
+								switch ebo.Op {
+								case token.LSS:
+									eg = linSub(ey, ex)
+									eg.k--
+								case token.LEQ:
+									eg = linSub(ey, ex)
+								case token.GTR:
+									eg = linSub(ex, ey)
+									eg.k--
+								case token.GEQ:
+									eg = linSub(ex, ey)
+								default:
+									okE = false
+								}
+								if okE && linSub(eg, first).String() == "0" {
+									okEntry = true
+								}
+							}
+						}
+					}
+					law.condIsIdxNonNeg = okEntry && linSub(g, next).String() == "0"
+				}
 			}
 		}
 	}
